@@ -250,3 +250,80 @@ theorem h5_pyEq (v : PyVal) (hb : ∀ s, v ≠ sc (.bytes s)) : pyEq (h5 v) v = 
   | arr2 rows => exact pyEq_refl _
 
 end DclabModel.Meta
+
+namespace DclabModel.Meta
+open PyVal Except
+
+/-! ### line codec -/
+
+theorem dropWhile_fixed (p : Nat → Bool) (l : Str) (h : ∀ c, l.head? = some c → p c = false) :
+    l.dropWhile p = l := by
+  cases l with
+  | nil => rfl
+  | cons c cs => simp [List.dropWhile, h c rfl]
+
+theorem stripBy_fixed (p : Nat → Bool) (s : Str) (h1 : ∀ c, s.head? = some c → p c = false)
+    (h2 : ∀ c, s.reverse.head? = some c → p c = false) : stripBy p s = s := by
+  unfold stripBy
+  rw [dropWhile_fixed p s h1, dropWhile_fixed p s.reverse h2, List.reverse_reverse]
+
+theorem takeWhile_fixed (p : Nat → Bool) (s : Str) (h : ∀ c ∈ s, p c = true) :
+    s.takeWhile p = s := by
+  induction s with
+  | nil => rfl
+  | cons c cs ih =>
+    simp only [List.takeWhile, h c (List.mem_cons_self ..)]
+    rw [ih (fun x hx => h x (List.mem_cons_of_mem _ hx))]
+
+theorem cleanText_plain (s : Str) (h : Plain s) : cleanText s = s := by
+  obtain ⟨h0, h1, h2⟩ := h
+  unfold cleanText
+  rw [takeWhile_fixed _ s (fun c hc => by simpa using h0 c hc)]
+  have e1 : ∀ c, s.head? = some c → isSpace c = false := fun c hc => by
+    have := h1 c hc; simp [edgeChar] at this; exact this.1.1
+  have e2 : ∀ c, s.reverse.head? = some c → isSpace c = false := fun c hc => by
+    have := h2 c hc; simp [edgeChar] at this; exact this.1.1
+  have q1 : ∀ c, s.head? = some c → isSQ c = false := fun c hc => by
+    have := h1 c hc; simp [edgeChar, isSpace] at this; simp [isSQ]; omega
+  have q2 : ∀ c, s.reverse.head? = some c → isSQ c = false := fun c hc => by
+    have := h2 c hc; simp [edgeChar, isSpace] at this; simp [isSQ]; omega
+  have d1 : ∀ c, s.head? = some c → isDQ c = false := fun c hc => by
+    have := h1 c hc; simp [edgeChar, isSpace] at this; simp [isDQ]; omega
+  have d2 : ∀ c, s.reverse.head? = some c → isDQ c = false := fun c hc => by
+    have := h2 c hc; simp [edgeChar, isSpace] at this; simp [isDQ]; omega
+  unfold strip
+  rw [stripBy_fixed isSpace s e1 e2, stripBy_fixed isSQ s q1 q2, stripBy_fixed isDQ s d1 d2,
+    stripBy_fixed isSpace s e1 e2]
+
+/-! ### attribute maps -/
+
+theorem attrs_get_put_same (a : Attrs) (k : Str × Str) (v : PyVal) :
+    (a.put k v).get? k = some v := by
+  simp [Attrs.put, Attrs.get?]
+
+theorem attrs_get_put_other (a : Attrs) (k k' : Str × Str) (v : PyVal) (h : k ≠ k') :
+    (a.put k v).get? k' = a.get? k' := by
+  simp only [Attrs.put, Attrs.get?]
+  rw [List.find?_cons_of_neg (by simpa using h)]
+  congr 1
+  rw [List.find?_filter]
+  congr 1
+  funext e
+  by_cases he : e.1 = k'
+  · have : ¬ e.1 = k := fun h' => h (h'.symm.trans he)
+    simp [he]
+    exact fun h' => h h'.symm
+  · simp [he]
+
+/-! ### registry -/
+
+theorem featExists_withFeats (t : Tbl) (extra : List Str) (n : Str) :
+    (t.withFeats extra).featExists n = (t.featExists n || extra.contains n) := by
+  simp only [Tbl.featExists, Tbl.withFeats, List.contains_eq_mem, List.mem_append,
+    Bool.decide_or]
+  generalize decide (n ∈ t.feats) = a
+  generalize decide (n ∈ extra) = b
+  generalize (startsWith n _ && _ && _) = c
+  cases a <;> cases b <;> cases c <;> rfl
+
+end DclabModel.Meta
